@@ -26,7 +26,14 @@ else
 fi
 mkdir -p $BASE/verif/evidence
 sed -i "s#/repo/cadence#$BASE/repo/cadence#g" $BASE/verif/harness/Cargo.toml $BASE/verif/fuzz/Cargo.toml
-git -C $BASE/repo checkout -q -- . && git -C $BASE/repo apply "$PATCH" || { echo "patch does not apply"; exit 2; }
+# the scratch worktree sits on /repo's HEAD unless the change was written against an earlier commit and no longer applies
+# (meta.json: base_commit, applies_to_head=false) or ISO_BASE names a commit
+WANT=$(git -C /repo rev-parse HEAD)
+if [ -n "${ISO_BASE:-}" ]; then WANT=$(git -C /repo rev-parse $ISO_BASE); elif ! git -C /repo apply --check "$PATCH" 2>/dev/null && [ -n "$ID" ] && [ -f /verif/seeded/$ID/meta.json ]; then
+  b=$(python3 -c "import json,sys; print(json.load(open('/verif/seeded/$ID/meta.json')).get('base_commit',''))"); [ -n "$b" ] && WANT=$(git -C /repo rev-parse $b)
+fi
+git -C $BASE/repo checkout -q -- . && git -C $BASE/repo checkout -q --detach $WANT
+git -C $BASE/repo apply "$PATCH" || { echo "patch does not apply"; exit 2; }
 cd $BASE/verif
 for p in "$@"; do
   s=$(date +%s)
